@@ -792,6 +792,12 @@ func (m *Manager) configureTasks(envId uid.ID, tasks Tasks) error {
 		if respError != nil {
 			errText := respError.Error()
 			if len(strings.TrimSpace(errText)) != 0 {
+				// single target: its failure fails the transition only if the task is critical, as above
+				if len(receivers) == 1 && !m.isCriticalTask(receivers[0].TaskId.Value) {
+					log.WithField("partition", envId.String()).
+						Warnf("%s could not complete for non-critical task, error: %s", event, errText)
+					return nil
+				}
 				return errors.New(response.Err().Error())
 			}
 			// FIXME: improve error handling ↑
@@ -872,6 +878,12 @@ func (m *Manager) transitionTasks(envId uid.ID, tasks Tasks, src string, event s
 		if respError != nil {
 			errText := respError.Error()
 			if len(strings.TrimSpace(errText)) != 0 {
+				// single target: its failure fails the transition only if the task is critical, as above
+				if len(receivers) == 1 && !m.isCriticalTask(receivers[0].TaskId.Value) {
+					log.WithField("partition", envId.String()).
+						Warnf("%s could not complete for non-critical task, error: %s", event, errText)
+					return nil
+				}
 				return errors.New(response.Err().Error())
 			}
 			// FIXME: improve error handling ↑
@@ -879,6 +891,16 @@ func (m *Manager) transitionTasks(envId uid.ID, tasks Tasks, src string, event s
 	}
 
 	return nil
+}
+
+// isCriticalTask applies the same criticality rule as the multi-response paths of configureTasks and
+// transitionTasks; an unknown task counts as non-critical there, too.
+func (m *Manager) isCriticalTask(taskId string) bool {
+	task := m.GetTask(taskId)
+	if task == nil {
+		return false
+	}
+	return task.GetTraits().Critical || (task.parent != nil && task.parent.GetTaskTraits().Critical)
 }
 
 func (m *Manager) TriggerHooks(envId uid.ID, tasks Tasks) error {
